@@ -1,11 +1,11 @@
 SPECIFICATION Spec
 CONSTANTS
   Modules = {"download", "upload", "wget"}
-  MaxLen = 7
-  ChunkLens = {1, 2, 3}
-  Deltas = {1, 2, 3}
-  MaxXfers = 1
-  Servers = {"cl", "nocl", "flushed", "close", "clsrc", "redirect"}
+  MaxLen = 3
+  ChunkLens = {2}
+  Deltas = {1, 2}
+  MaxXfers = 3
+  Servers = {"cl", "nocl", "flushed", "clsrc"}
   Musts = {FALSE, TRUE}
   ResetOnRefusal = TRUE
 INVARIANTS TypeOK SuccessIdentical MismatchFails NeverPartial HonestSucceeds CorruptFails IdleAfterFinalize IdleWhenContinuing PlacedIsSuccess
